@@ -61,6 +61,28 @@ impl<'r> Gen<'r> {
         let n = self.uniq();
         let m = self.mb();
         let m2 = self.mb();
+        // closing-quote stress: backslashes in single-quoted text, '' pairs at the start / end /
+        // next to a backslash, the other quote character, \" and \\ right before the closing quote
+        if self.rng.chance(1, 4) {
+            return match self.rng.below(16) {
+                0 => Node::sq(&format!("C:\\tmp{n}\\")),
+                1 => Node::sq(&format!("a\\'b{n}")),
+                2 => Node::sq(&format!("{n}a'")),
+                3 => Node::sq(&format!("'a{n}")),
+                4 => Node::sq("'"),
+                5 => Node::sq("\\"),
+                6 => Node::sq(&format!("say \"hi\" {n}{m}")),
+                7 => Node::sq(&format!("'{n}\\' x '")),
+                8 => Node::dq(&format!("a{n}\\")),
+                9 => Node::dq(&format!("x{n}\\\"")),
+                10 => Node::dq("\""),
+                11 => Node::dq("\\"),
+                12 => Node::dq(&format!("it's {n}{m}")),
+                13 => Node::dq(&format!("\"{n}\" \\ '")),
+                14 => Node::sq(&format!("one two{n} {m} three\\")),
+                _ => Node::dq(&format!("one two{n} {m} three\\")),
+            };
+        }
         match self.rng.below(if self.allow_block_scalars && !in_flow { 14 } else { 12 }) {
             0 => Node::plain(&format!("v{n}")),
             1 => Node::plain(&format!("v{m}{n}")),
@@ -88,6 +110,16 @@ impl<'r> Gen<'r> {
     pub fn key(&mut self) -> Node {
         let n = self.uniq();
         let m = self.mb();
+        if self.rng.chance(1, 6) {
+            return match self.rng.below(6) {
+                0 => Node::sq(&format!("k{n}\\")),
+                1 => Node::sq(&format!("k{n}'")),
+                2 => Node::sq(&format!("'k{n}\\'")),
+                3 => Node::dq(&format!("k{n}\\")),
+                4 => Node::dq(&format!("k\"{n}\\\"")),
+                _ => Node::dq(&format!("k'{n}")),
+            };
+        }
         match self.rng.below(8) {
             0 | 1 | 2 => Node::plain(&format!("k{n}")),
             3 => Node::plain(&format!("k{m}{n}")),
@@ -302,6 +334,7 @@ impl<'r> Gen<'r> {
 pub struct PadInfo {
     pub before_ok: Vec<bool>,
     pub in_flow: Vec<bool>,
+    pub is_key: Vec<bool>,
 }
 
 pub fn pad_info(root: &Node) -> PadInfo {
@@ -325,6 +358,7 @@ pub fn pad_info(root: &Node) -> PadInfo {
         let ok = inline && role != Role::Root && (in_flow || role == Role::Value || role == Role::Item);
         out.before_ok.push(ok);
         out.in_flow.push(in_flow);
+        out.is_key.push(role == Role::Key);
         let child_flow = in_flow || (inline && matches!(n, Node::Seq { .. } | Node::Map { .. }));
         match n {
             Node::Seq { items, .. } => items.iter().for_each(|i| go(i, child_flow, Role::Item, out)),
@@ -335,7 +369,7 @@ pub fn pad_info(root: &Node) -> PadInfo {
             _ => {}
         }
     }
-    let mut out = PadInfo { before_ok: Vec::new(), in_flow: Vec::new() };
+    let mut out = PadInfo { before_ok: Vec::new(), in_flow: Vec::new(), is_key: Vec::new() };
     go(root, false, Role::Root, &mut out);
     out
 }
@@ -346,10 +380,13 @@ pub struct Decorated {
     pub new_index: Vec<usize>,
     pub bom: bool,
     pub what: Vec<&'static str>,
+    /// (pre-order node id, token text as it now stands in the document) for quoted scalars
+    /// that were broken over two lines
+    pub token_overrides: Vec<(usize, String)>,
 }
 
 fn comment_text(rng: &mut Rng) -> String {
-    let pool = ["# c", "# é✓", "#", "# 😀 note: [x, y]", "# \"q\" 'r' *a &b", "#\ttab", "# 漢字 → ü"];
+    let pool = ["# c", "# é✓", "#", "# 😀 note: [x, y]", "# \"q\" 'r' *a &b", "#\ttab", "# 漢字 → ü", "# it's \"open", "# \\' \\\""];
     rng.pick(&pool).to_string()
 }
 
@@ -368,6 +405,7 @@ pub fn decorate(
     // insertions[i] = text inserted immediately before old char i (i == n: at the end)
     let mut ins: Vec<String> = vec![String::new(); n + 1];
     let mut what: Vec<&'static str> = Vec::new();
+    let mut token_overrides: Vec<(usize, String)> = Vec::new();
     let note = |w: &'static str, what: &mut Vec<&'static str>| {
         if !what.contains(&w) {
             what.push(w);
@@ -434,6 +472,35 @@ pub fn decorate(
         for t in &r.toks {
             if t.node >= pi.before_ok.len() {
                 continue;
+            }
+            // break a quoted value over two lines at a lone interior space (a single line break
+            // inside a quoted scalar folds back into that space; the continuation line is
+            // indented to the token's own column, which is deeper than any enclosing block)
+            if let Some(tok) = &t.token
+                && !pi.is_key[t.node]
+                && t.node != 0
+                && (tok.starts_with('\'') || tok.starts_with('"'))
+                && rng.below(100) < 7 * intensity
+            {
+                let tc: Vec<char> = tok.chars().collect();
+                let cands: Vec<usize> = (2..tc.len().saturating_sub(2))
+                    .filter(|&j| tc[j] == ' ' && !matches!(tc[j - 1], ' ' | '\t' | '\\') && !matches!(tc[j + 1], ' ' | '\t'))
+                    .collect();
+                if !cands.is_empty() {
+                    let j = *rng.pick(&cands);
+                    let mut ls = t.char_start;
+                    while ls > 0 && old[ls - 1] != '\n' && old[ls - 1] != '\r' {
+                        ls -= 1;
+                    }
+                    let col = (t.char_start - ls).max(1) + rng.below(3);
+                    let brk_here = format!("{brk}{}", " ".repeat(col));
+                    ins[t.char_start + j].push_str(&brk_here);
+                    let mut nt: String = tc[..j].iter().collect();
+                    nt.push_str(&brk_here);
+                    nt.extend(tc[j..].iter());
+                    token_overrides.push((t.node, nt));
+                    note("multi-line-quoted-scalar", &mut what);
+                }
             }
             if pi.before_ok[t.node] && t.char_start > 0 && old[t.char_start - 1] == ' ' && rng.below(100) < 10 * intensity {
                 let pad = match rng.below(4) {
@@ -525,5 +592,5 @@ pub fn decorate(
             pos += 1;
         }
     }
-    Decorated { text, new_index, bom, what }
+    Decorated { text, new_index, bom, what, token_overrides }
 }
